@@ -156,6 +156,8 @@ def report(ck: Ck, s: str, ml: bool, why: str, ctx: dict | None = None) -> None:
     # does the bare form fail too? then the context is irrelevant
     if ctx and oracle(small, ml) is not None:
         ctx = {}
+        small = shrink(small, lambda t: oracle(t, ml) is not None)
+        why = oracle(small, ml) or why
     from srctools.tokenizer import escape_text
     mode = 'multi' if ml else 'single'
     cls = '+'.join(cname(c) for c in small) or 'empty'
